@@ -101,7 +101,7 @@ Proof.
     - intros k E. rewrite E, loaded_labels_map, Ecache.
       assert (Hall : forall l, In l (filter (fun l0 => is_some (g l0)) ls) -> isld ls (map is_some (map g ls)) l = true).
       { intros l I. apply filter_In in I as [I1 I2]. rewrite Hisld, (proj2 (mem_In L leqb leqb_spec l ls) I1). exact I2. }
-      split; [apply NoDup_filter, N|]. split; [apply filter_all_true, Hall | intros _; exact Hall]. }
+      split; [apply NoDup_filter, N|]. split; [apply filter_all_true, Hall | exact Hall]. }
   split; [|exact Rd].
   unfold m_init. fold g.
   destruct (mb_mp L F m) as [k|] eqn:Emp; [|unfold derived; fold g; rewrite Emp; reflexivity].
